@@ -291,6 +291,25 @@ func NodeLeaves(n *Node, _ NoArgs) []Leaf {
 }
 func NodeThing(n *Node, _ NoArgs) *Thing { return n.W.thingFrom(n.W.H("Node", n.Id, "thing", 0)) }
 
+// NodeRings is a list of lists of leaves (with nil entries and empty inner lists).
+func NodeRings(n *Node, _ NoArgs) [][]*Leaf {
+	h := n.W.H("Node", n.Id, "rings", 0)
+	out := make([][]*Leaf, 0, 3)
+	for i := 0; i < int(h%4); i++ {
+		hh := n.W.H("Node", n.Id, "rings", int64(i+1))
+		ring := make([]*Leaf, 0, 3)
+		for j := 0; j < int(hh%4); j++ {
+			if (hh>>(4+2*uint(j)))%5 == 0 {
+				ring = append(ring, nil)
+			} else {
+				ring = append(ring, n.W.pickLeaf(hh>>(12+6*uint(j))))
+			}
+		}
+		out = append(out, ring)
+	}
+	return out
+}
+
 // NodeBlob is a byte string; for some nodes a nil one, for some an empty one.
 func NodeBlob(n *Node, _ NoArgs) []byte {
 	h := n.W.H("Node", n.Id, "blob", 0)
